@@ -2,6 +2,8 @@ package server
 
 import (
 	"bufio"
+	"database/sql"
+	"errors"
 	"fmt"
 	"io"
 	"net"
@@ -50,6 +52,8 @@ func handleClient(s *IMAPServer, conn net.Conn, state *models.ClientState) {
 
 		tag := parts[0]
 		cmd := strings.ToUpper(parts[1])
+
+		s.dropStaleSelection(state)
 
 		switch cmd {
 		case "CAPABILITY":
@@ -121,6 +125,36 @@ func handleClient(s *IMAPServer, conn net.Conn, state *models.ClientState) {
 			s.sendResponse(conn, fmt.Sprintf("%s BAD Unknown command: %s", tag, cmd))
 		}
 	}
+}
+
+// dropStaleSelection forgets the selection when the selected mailbox has been deleted since it was selected (by this
+// session or by another one). A session holds its mailbox by row id, and SQLite gives the id of a deleted row to the
+// next mailbox that is created: without this check the session would go on reading, flagging and expunging that other
+// mailbox. The UIDVALIDITY remembered at SELECT tells the two apart (a store never issues one twice).
+func (s *IMAPServer) dropStaleSelection(state *models.ClientState) {
+	if !state.Authenticated || state.SelectedMailboxID == 0 || state.UIDValidity == 0 {
+		return
+	}
+	selectedDB, _, err := s.GetSelectedDB(state)
+	if err != nil {
+		return
+	}
+	uidValidity, _, err := db.GetMailboxInfoPerUser(selectedDB, state.SelectedMailboxID)
+	if err == nil && uidValidity == state.UIDValidity {
+		return
+	}
+	if err != nil && !errors.Is(err, sql.ErrNoRows) {
+		return // a database error is not a deletion
+	}
+	state.SelectedFolder = ""
+	state.SelectedMailboxID = 0
+	state.ReadOnly = false
+	state.IsRoleMailbox = false
+	state.SelectedRoleMailboxID = 0
+	state.LastMessageCount = 0
+	state.LastRecentCount = 0
+	state.UIDValidity = 0
+	state.UIDNext = 0
 }
 
 // announceNewMessages tells the session of the messages that have arrived in the selected mailbox since its last
